@@ -298,8 +298,15 @@ func execMembership(t *testing.T, p *Plan) *Result {
 			var targets []string
 			for i := 0; i < n; i++ {
 				ids := dlgIDs{callID: fmt.Sprintf("probe-%s-%d", step, i), fromURI: "sip:p@caller.test", toURI: "sip:svc@svc.example.com", fromTag: fmt.Sprintf("pt%s%d", step, i), ruri: "sip:svc.example.com"}
+				emBefore := len(w.N.Emissions)
 				id := send("OPTIONS", ids, reqOpts{cseq: 1, noToTag: true})
 				ds := destOf(id)
+				if len(S) == 0 && len(w.N.Emissions) != emBefore && len(ds) == 0 {
+					// "with no backend registered the request is dropped": nothing at all is sent because of it
+					e := w.N.Emissions[emBefore]
+					v("C05", "request-not-dropped-with-empty-rotation", step, sig, "after %s no backend is registered; the request %s made the proxy send %d message(s), the first to %s:\n%s", step, id, len(w.N.Emissions)-emBefore, e.Dst, clip(string(e.Data), 300))
+					v("C19", "request-not-dropped-with-empty-rotation", step, sig, "after %s the rotation is empty; the request %s made the proxy send %d message(s), the first to %s:\n%s", step, id, len(w.N.Emissions)-emBefore, e.Dst, clip(string(e.Data), 300))
+				}
 				w.Stats["judged:C19"]++
 				w.Stats["judged:C05"]++
 				switch {
